@@ -194,3 +194,27 @@ func HarnessSelfAppend() {
 	vAssert(a[4] == &y && b[4] == &y, "two-appends-to-one-slice-with-spare-capacity-share-the-slot")
 	vCover("done")
 }
+
+// HarnessSelfGoroutines: goroutines joined by a WaitGroup have all run when Wait returns (the engine runs them to
+// completion one at a time; natively they run concurrently - the assertions do not depend on the order).
+func HarnessSelfGoroutines() {
+	var mu sync.Mutex
+	var wg sync.WaitGroup
+	var got []int
+	for i := 1; i <= 3; i++ {
+		wg.Add(1)
+		go func(k int) {
+			defer wg.Done()
+			mu.Lock()
+			got = append(got, k)
+			mu.Unlock()
+		}(i)
+	}
+	wg.Wait()
+	sum := 0
+	for _, g := range got {
+		sum += g
+	}
+	vAssert(len(got) == 3 && sum == 6, "all-goroutines-have-run-when-wait-returns")
+	vCover("done")
+}
